@@ -15,7 +15,8 @@ META = {
                    'dataflow over every public entry point with callees inlined); (4) the custom-stack release undoes the '
                    'allocation arithmetic (affine forms: size word, offset and allocator size are one SSA value; '
                    'ptr - size + 16 inverts base + size - 16), default stacks are tagged 0, and alloc/free map a size to '
-                   'its class by the same expression; (5) the size-class index is bounded by the free-list table.',
+                   'its class by the same expression; (5) the size-class index is bounded by the free-list table.'
+                   ' Fresh blocks of the size-class allocator are mapped with the class size (or carved from one page in class-size chunks pushed on the same class); the per-thread hint region ends at or below th->stack, i.e. below the two header words the release reads, and the initial stack pointer lies at or below the hint (C12.4).',
     'not_decided': 'timing of reuse and non-overlap of live stacks at run time; compiler-level caching of the TLS '
                    'worker rank across a migration',
     'assumptions': ['scheduler contexts never migrate between workers (named exemption of myth_sched_loop)',
